@@ -273,6 +273,9 @@ func buildWorld(h *HierSpec) *world {
 	fill("zone")
 	fill("other")
 	fill("sub")
+	if directedFamily(h.Directed) == "chase" {
+		addChaseRecords(w)
+	}
 	if t := w.zones["tld"]; t != nil {
 		t.AddMarked("host."+t.Apex(), dns.TypeA, 300)
 	}
@@ -289,6 +292,10 @@ type QuerySpec struct {
 	AD    bool   `json:"ad"`
 	CD    bool   `json:"cd"`
 	Proto string `json:"proto,omitempty"`
+	// Entry: "" = decoded entry (Server.ServeMsg, what DoH/DoQ use); "wire" /
+	// "wire-udp" = wire-born entry (Server.ServeRaw with a strict job, what the
+	// owned TCP / UDP engines use).
+	Entry string `json:"entry,omitempty"`
 }
 
 func (q QuerySpec) msg(id uint16) *dns.Msg {
@@ -316,6 +323,9 @@ func (q QuerySpec) String() string {
 	}
 	if q.CD {
 		f += "C"
+	}
+	if q.Entry != "" {
+		f += "|" + q.Entry
 	}
 	return fmt.Sprintf("%s %s [%s] (%s)", q.Name, dns.TypeToString[q.Type], f, q.Kind)
 }
@@ -351,6 +361,16 @@ func (w *world) queryKinds(salt string) []QuerySpec {
 		add(p+"ds", a, dns.TypeDS)
 		add(p+"dnskey", a, dns.TypeDNSKEY)
 		add(p+"mx", "mx."+a, dns.TypeMX)
+	}
+	if directedFamily(w.spec.Directed) == "chase" {
+		z, o := w.zones["zone"], w.zones["other"]
+		if z != nil && o != nil {
+			add("zone-cname-hop3", "hop3."+z.Apex(), dns.TypeA)
+			add("other-cname-back", "back."+o.Apex(), dns.TypeA)
+			if w.zones["sub"] != nil {
+				add("zone-cname-hop2", "hop2."+z.Apex(), dns.TypeA)
+			}
+		}
 	}
 	if t := w.zones["tld"]; t != nil {
 		add("tld-nx", "nx"+salt+"."+t.Apex(), dns.TypeA)
